@@ -393,6 +393,7 @@ def main():
                 if steer:
                     import cases as C
                     os.environ["VERIF_EXTRA_CAPS"] = ",".join(map(str, steer))
+                    C.STEERED.update(steer)
                     for lst in (C.WIDE_E, C.WIDE_U8):
                         lst.extend(x for x in steer if x not in lst)
             if tier == "quick" or steer:
